@@ -147,7 +147,7 @@ Proof.
   split; [|apply IH; exact Hrest].
   destruct (snd u) as [[lo b]|].
   - destruct Hm as (_ & _ & _ & _ & _ & He & _). left. exact He.
-  - destruct Hm as [Hg [He|(He & _)]]; [right; auto|left; exact He].
+  - destruct Hm as (Hg & [He|(He & _)] & _); [right; auto|left; exact He].
 Qed.
 
 Theorem json_error_offset_range_proof : forall d n tr, trace n (json_init d) = Some tr -> errs_ok d None tr.
